@@ -35,5 +35,7 @@ SEEDED = [
     ("C15-9", "C15-KEY"),
     ("C15-10", "C15-SETTERS"),
     ("C15-11", "C15-SETTERS"),
+    ("C15-12", "C15-GLOBAL"),
+    ("C15-13", "C15-GLOBAL"),
 ]
 MUTANTS = list(MUTANTS) + [_P("seed-" + sid, _os.path.join(_SEEDS, sid, "patch.diff"), rule) for sid, rule in SEEDED if _os.path.exists(_os.path.join(_SEEDS, sid, "patch.diff"))]
